@@ -228,7 +228,7 @@ PATTERNS = {"nu": r"line_\d+\.csv", "ldr": r"\w*_ldr_\d+\.csv", "tofwerk": r"\w+
 class C04(Prop):
     id = "C04"
     anchored = ["src/pewlib/io/csv.py"]
-    cases = {"quick": 1300, "thorough": 22000}
+    cases = {"quick": 1150, "thorough": 22000}
     rule = ("synthetic directories in the Nu / iCap LDR / TOFWERK / generic layouts (1..8 line files, numbers 9/10/11/100, "
             "plain / zero-padded / per-file (mixed) padding of the index, LDR sample names with digits and the lines of two "
             "samples in one directory, unequal lengths, 1..4 elements, distractor / hidden / directory entries, shuffled "
@@ -242,7 +242,17 @@ class C04(Prop):
             "of the real directory alone) plus batches of "
             "file names on which the model's matchers, filter, sort and the order its sort keys induce (which names have a "
             "key, how neighbouring keys compare) are compared with the real option.regex / option.filter / option.sort / "
-            "option.sortkey (TOFWERK: under 5 TZ settings) of the four options; non-trivial = at least two line files or a distractor; distinct by case hash")
+            "option.sortkey (TOFWERK: under 5 TZ settings) of the four options; 17% of the cases are HISTORIES of 2-4 calls in "
+            "one process, every call judged against the specification of the directory as it is on disk at that call: the same "
+            "path rewritten (other vendor layout / same file names with another header or other values / other line count, "
+            "modification times kept or not), a second path, the directory left unchanged, calls without an option "
+            "(option_for_path), with option_for_path's result, with one shared or a new option instance, load(path) without "
+            "full (made, not judged), the caller overwriting the returned image / params and editing attributes of its own "
+            "option instance or of the object option_for_path returned (the latter recorded only); the model side of a "
+            "history is the Lean world model (trace) run on the whole history; plus 64 deterministic histories; values with "
+            "a negative zero are compared bit for bit through cell identities; path given as Path or str, directory names "
+            "with dots / spaces / vendor-like / hidden; 14 time zones; indices of 5..21 digits; non-trivial = at least two "
+            "line files or a distractor or a judged history; distinct by case hash")
     trusted = [
         "np.genfromtxt parses a written table to the values float(token) (NaN for unparsable/empty tokens) and names the "
         "fields as the writer expects (spaces -> '_', quotes deleted for TOFWERK, empty -> f0); np.stack/np.delete/"
@@ -264,8 +274,11 @@ class C04(Prop):
         "or with a one-digit month / day (both accepted by time.strptime) is not judged; whether pewlib does what the model "
         "says there is only counted (feature stamp-out-of-domain:model-agrees / model-differs)",
         "an empty selection (no accepted file) is not compared (the property does not say what happens)",
-        "histories: the result of importing a directory does not depend on earlier imports made with the same option "
-        "object; what the earlier (primer) imports return or raise is not judged",
+        "histories: the result of importing a directory does not depend on earlier calls in the process (same or other "
+        "path, same or other option object, objects returned earlier and edited by the caller); an option object the caller "
+        "has edited is never passed to load again; a later call seeing the caller's edit of the object option_for_path "
+        "returned is recorded only (an implementation may hand out one shared instance per vendor)",
+        "an LDR directory in which every element column is empty (no element left in the image) is not judged",
     ]
 
     # ------------------------------------------------------------------ generation
